@@ -27,13 +27,4 @@ theorem have_forces_update (s : WState) (w : Wantlist) (k : Nat) :
 theorem ginv_reachable (x : GSys) (h : GReachable x) : GInv x :=
   Proofs.ClientView.ginv_reachable x h
 
-/-- Translator obligation: the three entry constructors of `message.rs`: want entries carry
-priority 1, the want type and the send-dont-have flag exactly as configured; cancel entries carry
-only the CID and `cancel`. -/
-theorem entry_ctors_spec :
-    Generated.implEntryCtors =
-      [("new_want_block_entry", ["block:cid.to_bytes()", "priority:1", "wantType:WantType::Block", "sendDontHave:set_send_dont_have"]),
-       ("new_want_have_entry", ["block:cid.to_bytes()", "priority:1", "wantType:WantType::Have", "sendDontHave:set_send_dont_have"]),
-       ("new_cancel_entry", ["block:cid.to_bytes()", "cancel:true"])] := by decide
-
 end Beetswap.Props.C17
